@@ -250,6 +250,33 @@ def check_c13(tier, seed):
     return chk.finish()
 
 
+def compiled_binding(chk, tier, seed):
+    """The binding as a C++ compiler sees it: models in which a same-named declaration shadows the selected one for C++
+    name lookup but not for Dezyne (decoy interface A.B.A.I0 next to A.I0 referred to from A.B; same-named externs and
+    interfaces in sibling namespaces) are generated, and compiled against a model header in which every declaration is a
+    distinct, non-convertible C++ type, with static_asserts on the accessor types."""
+    from . import cxx, runtime_checks  # pylint: disable=import-outside-toplevel
+    rng = random.Random(seed * 31 + 7)
+    progs = []
+    for k in range(8 if tier == 'quick' else 40):
+        decls, cfg, _ = runtime_checks.gen_model(rng, want_mc=(k % 2 == 0), shadow=(k % 4 != 3), clash=(k % 4 == 3))
+        prog = cxx.Program(decls, cfg)
+        try:
+            if prog.generate():
+                progs.append(prog)
+        except AssertionError:
+            continue
+    for prog, okay in zip(progs, cxx.compile_many(progs)):
+        chk.count(('compiled-binding', json.dumps(prog.cfg, sort_keys=True), len(progs)))
+        chk.programs = getattr(chk, 'programs', 0) + 1
+        if not okay:
+            err = prog.error or ''
+            first = next((ln for ln in err.splitlines() if 'error' in ln), err[:200])
+            chk.violation('a name in the generated shell denotes another declaration than the one Dezyne\'s scoping selects '
+                          f'(or none): the shell does not compile against the type-distinct model header: {first[:300]}',
+                          {'decls': prog.decls, 'cfg': prog.cfg, 'compiler_output': err[:3000]}, {'kind': 'compiled-binding'})
+
+
 def check_c07(tier, seed):
     chk = core.Check('C07', tier, seed)
     core.repo_guard()
@@ -274,7 +301,8 @@ def check_c07(tier, seed):
                 lookups_all.append({'id': f'{mode}-{len(lookups_all)}', 'events': lk})
     from .parser_checks import report_rejections  # pylint: disable=import-outside-toplevel
     report_rejections(chk, 'ScopingTrace', 'ScopingTrace.cfg', lookups_all, 'lookups made by Builder.build')
+    compiled_binding(chk, tier, seed)
     chk.exhaustive = True
-    chk.assumptions = ['compiled-level binding (distinct non-convertible C++ types per declaration) is covered by the C++ '
-                       'checks; here the binding is read from Builder._recipe and from the generated lambda signatures']
+    chk.assumptions = ['the binding of the enumerated cases is read from Builder._recipe (or the generated text) and from the '
+                       'extern tags in the generated source; the C++-level binding is compiled for the shadowing shapes only']
     return chk.finish()
